@@ -280,11 +280,6 @@ func genField(r *vh.Rand, alnum bool) string {
 func genGslb(r *vh.Rand) {
 	ns := r.Range(1, 5)
 	names := map[string]bool{}
-	type sub struct {
-		name string
-		w    int
-		bs   []be
-	}
 	var subs []sub
 	onePos := r.Chance(1, 5)
 	small := r.Chance(1, 3)
@@ -323,6 +318,10 @@ func genGslb(r *vh.Rand) {
 			ip = vh.Hex(r.Bytes(16))
 		case 3:
 			ip = fixedIP
+		case 4: // the same IPv4 address in its 16-byte v4-mapped form (what net.ParseIP returns): a different key
+			ip = "00000000000000000000ffff" + fixedIP
+		case 5:
+			ip = "00000000000000000000ffff" + vh.Hex(r.Bytes(4))
 		default:
 			ip = vh.Hex(r.Bytes(4))
 		}
@@ -347,6 +346,84 @@ func genGslb(r *vh.Rand) {
 		}
 		reqs = append(reqs, ip+"|"+hv+"|"+ck+"|"+uri)
 	}
+	// histories: the same requests again after reloads that change nothing, change weights / members, and after a
+	// backend went down and came back
+	history := r.Chance(1, 2)
+	var controls []string
+	if history {
+		again := strings.Join(reqs, ",")
+		cur := append([]sub(nil), subs...)
+		gconf := func(ss []sub) string {
+			p := make([]string, len(ss))
+			for i, s := range ss {
+				p[i] = fmt.Sprintf("%s=%d", s.name, s.w)
+			}
+			return "R:" + strings.Join(p, "/")
+		}
+		for k := r.Range(1, 3); k > 0; k-- {
+			switch r.Intn(6) {
+			case 0: // identical gslb conf
+				controls = append(controls, gconf(cur), again)
+			case 1: // identical backend list of one sub-cluster, other order
+				i := r.Intn(len(cur))
+				if len(cur[i].bs) > 0 {
+					controls = append(controls, fmt.Sprintf("B:%s=%s", cur[i].name, strings.ReplaceAll(fmtBs(shuffle(r, cur[i].bs)), ",", "+")), again)
+				}
+			case 2: // one backend replaced by another (same count), weights changed
+				i := r.Intn(len(cur))
+				if len(cur[i].bs) > 0 {
+					nb := append([]be(nil), cur[i].bs...)
+					nb[r.Intn(len(nb))] = be{fmt.Sprintf("10.9.%d.%d:80", r.Intn(3), r.Range(1, 250)), r.Range(1, 6) * 100, 1}
+					if r.Chance(1, 2) {
+						nb[r.Intn(len(nb))].w = r.Range(1, 9) * 100
+					}
+					if _, ok := parseBs(fmtBs(nb)); ok {
+						cur[i].bs = nb
+						controls = append(controls, fmt.Sprintf("B:%s=%s", cur[i].name, strings.ReplaceAll(fmtBs(shuffle(r, nb)), ",", "+")), again)
+					}
+				}
+			case 3: // sub-cluster weights changed / one added / one removed (total stays > 0)
+				next := append([]sub(nil), cur...)
+				if len(next) > 1 && r.Chance(1, 3) {
+					j := r.Intn(len(next))
+					next = append(next[:j:j], next[j+1:]...)
+				}
+				for j := range next {
+					if r.Chance(1, 2) {
+						next[j].w = []int{0, -3, 1, 2, 5, 40, 100}[r.Intn(7)]
+					}
+				}
+				if r.Chance(1, 2) {
+					nm := subNames[r.Intn(len(subNames)-1)]
+					dup := false
+					for _, x := range next {
+						dup = dup || x.name == nm
+					}
+					if !dup {
+						next = append(next, sub{nm, r.Range(1, 50), nil})
+					}
+				}
+				pos := false
+				for _, x := range next {
+					pos = pos || x.w > 0
+				}
+				if pos {
+					cur = next
+					controls = append(controls, gconf(shuffleSubs(r, cur)), again)
+				}
+			default: // a backend goes down, requests, comes back, requests: the mapping must be the old one again
+				i := r.Intn(len(cur))
+				if len(cur[i].bs) > 0 {
+					b := cur[i].bs[r.Intn(len(cur[i].bs))]
+					controls = append(controls, fmt.Sprintf("A:%s:%s=0", cur[i].name, b.addr), again,
+						fmt.Sprintf("A:%s:%s=%d", cur[i].name, b.addr, b.a), again)
+				}
+			}
+		}
+		if len(controls) == 0 {
+			history = false
+		}
+	}
 	emit := func(perm bool) {
 		ss := make([]string, len(subs))
 		order := r.Intn(2) == 0
@@ -361,12 +438,31 @@ func genGslb(r *vh.Rand) {
 			}
 			ss[i] = fmt.Sprintf("%s=%d=%s", s.name, s.w, fmtBs(bs))
 		}
-		queue = append(queue, fmt.Sprintf("gs %d %d %s %s %s", sticky, strat, vh.Hex([]byte(spec)), strings.Join(ss, ";"), strings.Join(reqs, ",")))
+		script := strings.Join(reqs, ",")
+		if history {
+			script = strings.Join(reqs, ",") + "," + strings.Join(controls, ",")
+		}
+		queue = append(queue, fmt.Sprintf("gs %d %d %s %s %s", sticky, strat, vh.Hex([]byte(spec)), strings.Join(ss, ";"), script))
 	}
 	emit(false)
 	if r.Chance(1, 2) {
 		emit(true)
 	}
+}
+
+type sub struct {
+	name string
+	w    int
+	bs   []be
+}
+
+func shuffleSubs(r *vh.Rand, ss []sub) []sub {
+	out := append([]sub(nil), ss...)
+	for i := len(out) - 1; i > 0; i-- {
+		j := r.Intn(i + 1)
+		out[i], out[j] = out[j], out[i]
+	}
+	return out
 }
 
 func mustUnhex(s string) []byte { b, _ := vh.UnHex(s); return b }
@@ -491,6 +587,60 @@ func execGslb(f []string) string {
 	}
 	var out []string
 	for _, rq := range strings.Split(f[5], ",") {
+		if strings.HasPrefix(rq, "R:") { // gslb Reload with a new sub-cluster weight table
+			conf := gslb_conf.GslbClusterConf{}
+			for _, t := range strings.Split(rq[2:], "/") {
+				q := strings.Split(t, "=")
+				if len(q) != 2 || q[0] == "" {
+					return "bad-op"
+				}
+				w, err := strconv.Atoi(q[1])
+				if _, dup := conf[q[0]]; err != nil || dup {
+					return "bad-op"
+				}
+				conf[q[0]] = w
+			}
+			if err := bal.Reload(conf); err != nil {
+				return "reload-err"
+			}
+			continue
+		}
+		if strings.HasPrefix(rq, "B:") { // BackendReload of one sub-cluster with a complete backend list
+			q := strings.SplitN(rq[2:], "=", 2)
+			if len(q) != 2 {
+				return "bad-op"
+			}
+			bs, ok := parseBs(strings.ReplaceAll(q[1], "+", ","))
+			rr := bal.VerifC02SubRR(q[0])
+			if !ok || rr == nil {
+				return "bad-op"
+			}
+			bal.BackendReload(cluster_table_conf.ClusterBackend{q[0]: mkConf(bs)})
+			applyState(rr, bs)
+			continue
+		}
+		if strings.HasPrefix(rq, "A:") { // A:<sub>:<addrinfo>=<0|1>  availability flip (health checker)
+			eq := strings.LastIndexByte(rq, '=')
+			c := strings.IndexByte(rq[2:], ':')
+			if eq < 0 || c < 0 || 2+c+1 > eq {
+				return "bad-op"
+			}
+			rr := bal.VerifC02SubRR(rq[2 : 2+c])
+			if rr == nil {
+				return "bad-op"
+			}
+			found := false
+			for _, h := range rr.VerifC02Backends() {
+				if h.AddrInfo == rq[2+c+1:eq] {
+					h.SetAvail(rq[eq+1:] == "1")
+					found = true
+				}
+			}
+			if !found {
+				return "bad-op"
+			}
+			continue
+		}
 		p := strings.Split(rq, "|")
 		if len(p) != 4 {
 			return "bad-op"
@@ -601,4 +751,56 @@ func exec(op string) string {
 	return "bad-op"
 }
 
-func main() { vh.Main(gen, exec) }
+// keysFor returns one key per residue 0..m-1 of murmur3.Sum64(key) mod m
+func keysFor(r *vh.Rand, m int) [][]byte {
+	got := make([][]byte, m)
+	n := 0
+	for tries := 0; n < m && tries < 400*m; tries++ {
+		k := r.Bytes(4)
+		if x := int(murmur3.Sum64(k) % uint64(m)); got[x] == nil {
+			got[x] = k
+			n++
+		}
+	}
+	var out [][]byte
+	for _, k := range got {
+		if k != nil {
+			out = append(out, k)
+		}
+	}
+	return out
+}
+
+func main() {
+	vh.Pre = func(emit func(string), thorough bool) {
+		r := vh.NewRand(20240917)
+		// sticky level: EVERY residue 0..W-1 (hence every cumulative boundary c_i-1, c_i) for a few weight vectors
+		vecs := [][]int{{1}, {1, 1}, {1, 2, 3}, {3, 1, 2}, {2, 2, 2, 1}, {5, 1}, {1, 5}, {4, 4}, {100, 200, 300}, {300, 200, 100}}
+		if thorough {
+			vecs = append(vecs, []int{700, 100, 200, 500}, []int{1, 1, 1, 1, 1, 1, 1}, []int{999, 1})
+		}
+		for _, v := range vecs {
+			var bs []be
+			W := 0
+			for i, w := range v {
+				bs = append(bs, be{fmt.Sprintf("10.0.0.%d:80", 9-i), w, 1}) // listed in descending address order
+				W += w
+				if i == 0 {
+					bs = append(bs, be{"10.0.0.50:80", 7, 0}, be{"10.0.0.51:80", 0, 1}) // ineligible ones in between
+				}
+			}
+			emit("st " + fmtBs(bs) + " " + hexKeys(keysFor(r, W)))
+		}
+		// two levels with different moduli: sub-clusters 2:3 (mod 5), backends 3:4 (mod 7) and 1:2 (mod 3):
+		// all residues mod 105 = every combination of the three residues
+		var reqs []string
+		for _, k := range keysFor(r, 105) {
+			reqs = append(reqs, vh.Hex(k)+"|-|n|-")
+		}
+		for _, sticky := range []int{1, 0} {
+			emit(fmt.Sprintf("gs %d 1 782d756964 b.two=3=10.0.1.2:80/4/1,10.0.1.1:80/3/1;a.one=2=10.0.2.1:80/1/1,10.0.2.2:80/2/1;z.off=0=10.0.3.1:80/1/1;n.neg=-4=10.0.4.1:80/1/1 %s",
+				sticky, strings.Join(reqs, ",")))
+		}
+	}
+	vh.Main(gen, exec)
+}
